@@ -35,7 +35,7 @@ HARNESSES += [
 ]
 for (s_, x_, l1, l2) in [(s_, x_, l1, l2) for s_ in (0, 1, 3) for x_ in (0, 1) for l1 in (0, 1, 2) for l2 in (1, 3)]:
     HARNESSES.append(dict(name='feed_s%d_x%d_l%d_%d' % (s_, x_, l1, l2), units=['parser'], file='c04_parser.c',
-       defs={'H_FEED': None, 'S': 4, 'SFIX': s_, 'XFIX': x_, 'L1FIX': l1, 'L2FIX': l2}, unwind=8, witness=(s_ == 1 and x_ == 0 and l1 == 2 and l2 == 1),
+       defs={'H_FEED': None, 'S': 4, 'SFIX': s_, 'XFIX': x_, 'L1FIX': l1, 'L2FIX': l2}, unwind=8, mem_est=(10 if l2 == 3 else 3), memgb=16, witness=(s_ == 1 and x_ == 0 and l1 == 2 and l2 == 1),
        tiers=('quick', 'thorough') if (x_ == 0 and l2 == 1) or (s_ == 3 and l1 == 2) else ('thorough',),
        bound='buffer of %d bytes with %d spare capacity, any read offset, any maxSize (64-bit), feeds of %d then %d bytes, all contents' % (s_, x_, l1, l2),
        desc='L1/C14a: feed re-bases the get area, preserves read offset and earlier bytes, appends in order; refused iff over the limit and then changes nothing'))
@@ -54,7 +54,7 @@ for k in range(1, 13):
     HARNESSES.append(line_inst('resp', 13, k, ('quick', 'thorough') if k in (2, 7, 8, 9, 10, 11, 12) else ('thorough',), witness=(k == 10)))
 def hdr_inst(n, k, tiers, witness, we=1):
     return dict(name='headers_n%d_k%d' % (n, k), units=['headers'], file='c01_headers.c', defs={'NN': n, 'K': k, 'WE': we, 'VP_DISPATCH_rvoid_u8p_u8p_u64': None}, unwind=n + 2, outer_unwind=n // 4 + 2,
-                tiers=tiers, witness=witness, timeout=1500,
+                tiers=tiers, witness=witness, timeout=1500, mem_est=9,
                 bound='every header-section prefix of exactly %d bytes, cut after %d bytes; any registry predicate (one symbolic registered name), any deterministic rejection by the value parsers' % (n, k),
                 desc='L2 two-run for HeadersStep + C16(b): names/values handed to addRaw/parseRaw/cookie parsers are exactly the sent ranges')
 for k in range(1, 12):
@@ -71,7 +71,7 @@ def chunk_inst(n, k1, k2, tiers, witness):
                 bound='every chunked body section of exactly %d bytes (all 256^%d contents), delivered as %s' % (n, n, '%d + %d bytes' % (k1, n - k1) if k1 == k2 else '%d + %d + %d bytes' % (k1, k2 - k1, n - k2)),
                 desc='L5 chunked: segmented run == one-shot run; == RFC 7230 4.1 reference decoder on well-formed input; no early completion; counters reset; termination',
                 replay=REAL, tv=TV if witness else None)
-for n in range(3, 14):
+for n in range(5, 14):      # a chunked body section needs at least the 5 bytes of '0 CRLF CRLF' to complete: shorter sections cannot reach the end of the harness
     for k in range(1, n):
         quick = n in (8, 11)
         HARNESSES.append(chunk_inst(n, k, k, ('quick', 'thorough') if quick else ('thorough',), witness=(k == n // 2)))
